@@ -21,8 +21,39 @@ import (
 	"time"
 )
 
-const verifDir = "/verif"
-const simDir = "/verif/sim"
+// Registered commands run with the defaults (/verif against /repo's working
+// tree). VERIF_DIR / VERIF_REPO redirect a background sweep (vp run --with-repo)
+// to a snapshot, so that edits in /verif and patches tried in /repo do not
+// disturb it; such a sweep is exploration, not evidence.
+var verifDir = envOr("VERIF_DIR", "/verif")
+var simDir = filepath.Join(verifDir, "sim")
+var repoDir = envOr("VERIF_REPO", "/repo")
+
+func envOr(k, d string) string {
+	if v := os.Getenv(k); v != "" {
+		return v
+	}
+	return d
+}
+
+// modfileArgs: when the repository under test is not /repo, the worker is built
+// with a copy of go.mod whose replace directive points at it.
+func modfileArgs() []string {
+	if repoDir == "/repo" {
+		return nil
+	}
+	b, err := os.ReadFile(filepath.Join(simDir, "go.mod"))
+	if err != nil {
+		fatal2("%v", err)
+	}
+	alt := filepath.Join(verifDir, "bin", "alt.go.mod")
+	os.MkdirAll(filepath.Dir(alt), 0o755)
+	os.WriteFile(alt, []byte(strings.Replace(string(b), "=> /repo", "=> "+repoDir, 1)), 0o644)
+	if sum, err := os.ReadFile(filepath.Join(simDir, "go.sum")); err == nil {
+		os.WriteFile(filepath.Join(verifDir, "bin", "alt.go.sum"), sum, 0o644)
+	}
+	return []string{"-modfile=" + alt}
+}
 
 type violation struct {
 	Oracle string `json:"oracle"`
@@ -105,13 +136,14 @@ func build(race bool) string {
 		out += ".race"
 		args = []string{"test", "-tags", "verif", "-race", "-c", "-o", out}
 	}
+	args = append(args, modfileArgs()...)
 	args = append(args, ".")
 	cmd := exec.Command("go1.26.8", args...)
 	cmd.Dir = simDir
 	cmd.Env = env()
 	b, err := cmd.CombinedOutput()
 	if err != nil {
-		fatal2("building the simulation worker from /repo's working tree failed:\n%s", string(b))
+		fatal2("building the simulation worker from %s's working tree failed:\n%s", repoDir, string(b))
 	}
 	return out
 }
@@ -226,6 +258,9 @@ func main() {
 	}
 	if tier == "" {
 		tier = "quick"
+	}
+	if v, err := strconv.Atoi(os.Getenv("VERIF_WORKERS")); err == nil && v > 0 {
+		workers = v
 	}
 	if workers > 16 {
 		workers = 16
